@@ -67,6 +67,26 @@ def gen(ctx):
     return out
 
 
+def _shared_objects_history(seed, c):
+    import random
+    r = random.Random(seed)
+    d = c[0]
+    objs = cells.build_py(d)
+    order = list(range(len(objs) - 1))
+    r.shuffle(order)
+    for i in order[:12]:
+        o = r.choice(OPTS)
+        objs[i].to_boc(bool(o[0]), bool(o[1]), bool(o[2]))
+    # a second parent over the same objects, serialised before the root
+    from pytoniq_core.boc.cell import Cell
+    kids = [objs[i] for i in sorted(r.sample(range(len(objs) - 1), min(len(objs) - 1, r.choice([1, 2, 3]))), reverse=bool(r.getrandbits(1)))]
+    try:
+        Cell(cells.tvm_bits("1"), kids, -1).to_boc()
+    except Exception:
+        pass
+    return "ok " + objs[-1].to_boc(bool(c[1]), bool(c[2]), bool(c[3])).hex()
+
+
 def run(ctx):
     rng = ctx.rng
     dags = gen(ctx)
@@ -107,6 +127,21 @@ def run(ctx):
         if r != "ok":
             ctx.fail("roundtrip:" + r.split(":")[0], r, {"dag": d, "opts": c[1:]})
     ctx.extra["roundtrips"] = n
+    # history: the same Cell OBJECTS written into several bags (every sub-cell serialised alone first, in random order and
+    # with random options, then the root): the root's bag must be byte for byte the bag of a freshly built equal DAG
+    nhist = 0
+    okmap = {(cells.dag_line(c[0]), c[1:]): a for c, a in zip(ser_cases, impl_s) if a.startswith("ok ")}
+    for c in rng.sample(ser_cases, min(len(ser_cases), ctx.n(150, 1500))):
+        d = c[0]
+        want = okmap.get((cells.dag_line(d), c[1:]))
+        if want is None or len(d) < 3 or len(d) > 300 or cells.dag_depth(d) > 300:
+            continue
+        nhist += 1
+        r = core.call_impl(lambda _: _shared_objects_history(rng.getrandbits(32), c), None, timeout_s=120)
+        if r != want:
+            ctx.fail("to_boc-depends-on-earlier-bags", f"after the sub-cells had been serialised on their own: {r[:60]} vs {want[:60]}",
+                     {"dag": d, "opts": c[1:], "history": True})
+    ctx.extra["shared_object_histories"] = nhist
     # input forms (Boc.__init__): the model's boc_normalize / entry points against the library on hex, base64 and
     # adversarial text (whitespace, wrong padding, url-safe alphabet, non-ASCII, odd digit counts, hex-looking base64)
     texts = form_texts(rng, [a[3:] for a in impl_s if a.startswith("ok ") and len(a) < 4000], ctx.n(400, 4000))
